@@ -136,7 +136,11 @@ def r1(R1, cfg, F):
                 ok = b.path == w and c.args[1].get('text') == 'true'
                 R1.check(ok, cfg, b.path, 'reload_global.store(true)-by-writer', 'the global reload flag may be stored only by the writer, with `true`', c.loc())
             elif nm == 'swap':
-                ok = bool(re.search(r'::reloaded_global::\{closure#1\}$', b.path)) and c.args[1].get('text') == 'false'
+                ok = bool(re.search(r'::reloaded_global::\{closure#\d+\}$', b.path)) and c.args[1].get('text') == 'false'
+                if not ok and c.args[1].get('text') == 'false' and b.kind != 'Closure':
+                    # a private accessor that only the reloaded_global functions use (called, or handed to `either` by name)
+                    us = common.users_of_fn(F, b.path)
+                    ok = bool(us) and all(re.search(r'::reloaded_global$', u) for u in us)
                 R1.check(ok, cfg, b.path, 'reload_global.swap(false)-by-reloaded_global', 'the global flag may be swapped only by reloaded_global, with `false`', c.loc())
             elif nm == 'load':
                 R1.ok(cfg, b.path, 'reload_global.load', c.loc())
@@ -188,7 +192,9 @@ def r2(R2, cfg, F):
                     why = 'no Some(deps) result'
         # the handle written is the cached one for (id, typ)
         h = b.call_roots(wr[0].args[0], passthrough=common.PT_TRY)
-        if [r.callee.name for r in h if r.callee] != ['get_cached_untyped']:
+        hp = common.deep_path(b, wr[0].args[0], at=wr[0].bb) or []
+        via_path = [c for c in b.calls() if hp[:1] == ['call@bb%d' % c.bb] and c.callee and c.callee.name == 'get_cached_untyped' and hp[1:] in (['as:Some', '0'], [])]
+        if [r.callee.name for r in h if r.callee] != ['get_cached_untyped'] and not via_path:
             ok = False
             why = 'the handle written is not the cached entry of (id, typ)'
     R2.check(ok, cfg, b.path, 'write-only-on-Ok-of-the-load', 'reload_untyped must write exactly when the load returned Ok, to the cached handle of (id,typ): %s' % why, wr[0].loc() if wr else b.loc())
@@ -252,6 +258,11 @@ def r3(R3, cfg, F):
     for fn, ru in sorted(ups.items()):
         ts = [c for c in ru.calls() if c.callee and c.callee.name == 'topological_sort_from']
         cl = [c for c in ru.calls() if c.callee and c.callee.name == 'clear' and 'HashSet' in c.callee.best]
+        # (the set may also be emptied by taking its content out: mem::take / mem::replace(set, HashSet::new()))
+        tk = [c for c in ru.calls() if c.callee and c.callee.best in ('std::mem::take', 'std::mem::replace') and c.args and 'HashSet<source::OwnedDirEntry' in (c.args[0]['place']['ty'] if c.args[0]['k'] in ('copy', 'move') else '')]
+        taken = False
+        if not cl and len(tk) == 1:
+            cl, taken = tk, True
         it = [c for c in ru.calls() if c.callee and c.callee.best == D + 'TopologicalSort::into_iter']
         rl = [c for c in ru.calls() if c.callee and c.callee.best == D + 'DepsGraph::reload']
         ok = len(ts) == 1 and len(cl) == 1 and len(it) == 1 and len(rl) == 1
@@ -261,7 +272,8 @@ def r3(R3, cfg, F):
                 continue
             seen_src.add(key)
             pt = common.make_pt(r'HashSet::<T, S, A>::iter$', r'IntoIterator.*::into_iter$', r'Iterator>::next$')
-            ok = ru.dominates(ts[0].bb, cl[0].bb) and ru.dominates(cl[0].bb, it[0].bb) and common.deep_path(ru, it[0].args[0]) == ['call@bb%d' % ts[0].bb]
+            ok = (ru.dominates(cl[0].bb, ts[0].bb) if taken else ru.dominates(ts[0].bb, cl[0].bb)) and ru.dominates(cl[0].bb, it[0].bb) \
+                and common.deep_path(ru, it[0].args[0]) == ['call@bb%d' % ts[0].bb]
             # the set cleared is the set sorted from (the change set), the graph sorted is the graph reloaded
             def base(op, depth=0):
                 ap = common.strip_refs(common.deep_path(ru, op))
@@ -271,7 +283,14 @@ def r3(R3, cfg, F):
                         return base(site[0].args[0], depth + 1)
                 return ap
             cs_ = base(cl[0].args[0])
-            ok = ok and bool(cs_) and cs_ == base(ts[0].args[1]) and cs_[-1:] == ['to_reload']
+            if taken:
+                # what is sorted from is the content that was taken out of the change set
+                ok = ok and bool(cs_) and cs_[-1:] == ['to_reload'] and base(ts[0].args[1]) == ['call@bb%d' % cl[0].bb]
+                if ok and cl[0].callee.best == 'std::mem::replace':
+                    nr = ru.call_roots(cl[0].args[1])
+                    ok = len(nr) == 1 and nr[0].callee.name in ('new', 'default', 'with_hasher', 'with_capacity_and_hasher') and not [a for a in nr[0].args if a['k'] != 'const' and nr[0].callee.name == 'new']
+            else:
+                ok = ok and bool(cs_) and cs_ == base(ts[0].args[1]) and cs_[-1:] == ['to_reload']
             ok = ok and common.strip_refs(common.deep_path(ru, ts[0].args[0])) == common.strip_refs(common.deep_path(ru, rl[0].args[0]))
             src = ru.downcast_source(rl[0].args[2])
             ok = ok and bool(src) and src[1] == 'Some' and [r.callee.best for r in ru.call_roots(src[0], passthrough=pt)] == [D + 'TopologicalSort::into_iter']
